@@ -1,4 +1,4 @@
 SPECIFICATION Spec
-CONSTANTS NC = 2  NT = 2  MaxVeto = 1  LogBeforeWrite = TRUE  HonourVeto = FALSE  CloseConnOnVeto = TRUE  DrainOnEOF = TRUE  LateVetoCloses = TRUE  GenHist = FALSE
+CONSTANTS NC = 2  NT = 2  MaxVeto = 1  LogBeforeWrite = TRUE  HonourVeto = FALSE  CloseConnOnVeto = TRUE  DrainOnEOF = TRUE  LateVetoCloses = TRUE  HookMax = 2  PutbackFirst = TRUE  GenHist = FALSE
 INVARIANTS NoViolation NoViolationAtEnd
 CHECK_DEADLOCK FALSE
